@@ -845,6 +845,55 @@ theorem C31_exact {σ : Type} (env : Env) (o : Origin σ) (cfg : Cfg) (sched1 sc
   obtain ⟨sched, s', h'⟩ := fetchUrl_ok env o cfg sched1 sched2 s url bs h
   exact (fetchWithProbe_ok env o cfg sched s' url bs h').2
 
+/-- **decoded bytes held**: the per-call limit both bounded decoders hand to the library is never `0` (zlib's "unlimited") and never
+more than one byte past the remaining budget; hence, whatever the body (any sequence of library answers, a bomb included), the
+gzip and the zstd loop stop after producing at most `cap + 1` decoded bytes — within `max_decompressed_bytes` plus one chunk. -/
+theorem C31_inflate_bound (cap : Nat) :
+    (∀ total, total ≤ cap →
+      0 < inflateLimit Gen.Fetch.gzipLimitOffset cap total ∧ total + inflateLimit Gen.Fetch.gzipLimitOffset cap total ≤ cap + 1 ∧
+      0 < inflateLimit Gen.Fetch.zstdLimitOffset cap total ∧ total + inflateLimit Gen.Fetch.zstdLimitOffset cap total ≤ cap + 1 ∧
+      inflateLimit Gen.Fetch.gzipLimitOffset cap total ≤ 65536 ∧ inflateLimit Gen.Fetch.zstdLimitOffset cap total ≤ 65536) ∧
+    (∀ (avail : List Nat) (total : Nat), total ≤ cap →
+      inflateTotal true Gen.Fetch.gzipCapGuard Gen.Fetch.gzipLimitOffset cap avail total ≤ cap + 1 ∧
+      inflateTotal false Gen.Fetch.zstdCapGuard Gen.Fetch.zstdLimitOffset cap avail total ≤ cap + 1) := by
+  have hg : Gen.Fetch.gzipLimitOffset = 1 := by rfl
+  have hz : Gen.Fetch.zstdLimitOffset = 1 := by rfl
+  have hc : Gen.Fetch.inflateChunk = 65536 := by rfl
+  have hgg : Gen.Fetch.gzipCapGuard = ">" := by rfl
+  have hzg : Gen.Fetch.zstdCapGuard = ">" := by rfl
+  have hlim : ∀ total, total ≤ cap → 0 < inflateLimit 1 cap total ∧ total + inflateLimit 1 cap total ≤ cap + 1 ∧
+      inflateLimit 1 cap total ≤ 65536 := by
+    intro total ht
+    unfold inflateLimit
+    rw [hc]
+    omega
+  constructor
+  · intro total ht
+    rw [hg, hz]
+    obtain ⟨h1, h2, h3⟩ := hlim total ht
+    exact ⟨h1, h2, h1, h2, h3, h3⟩
+  · have loop : ∀ (z : Bool) (avail : List Nat) (total : Nat), total ≤ cap → inflateTotal z ">" 1 cap avail total ≤ cap + 1 := by
+      intro z avail
+      induction avail with
+      | nil => intro total ht; simp [inflateTotal]; omega
+      | cons a rest ih =>
+        intro total ht
+        obtain ⟨h1, h2, _⟩ := hlim total ht
+        have hout : total + libAnswer z (inflateLimit 1 cap total) a ≤ cap + 1 := by
+          unfold libAnswer
+          rw [if_neg (by omega)]
+          omega
+        unfold inflateTotal
+        simp only [Aux.cmp_gt]
+        split
+        · exact hout
+        · rename_i hle
+          simp only [gt_iff_lt, decide_eq_true_eq, Nat.not_lt] at hle
+          exact ih _ hle
+    intro avail total ht
+    rw [hg, hz, hgg, hzg]
+    exact ⟨loop true avail total ht, loop false avail total ht⟩
+
 /-- an origin whose complete in-contract 206 bodies are the requested slices of `obj` (it may still ignore ranges, answer
 short or long, redirect, fail, lie about sizes: those answers are not in-contract) -/
 def RangeHonest {σ : Type} (o : Origin σ) (obj : Bytes) (n : Nat) : Prop :=
